@@ -65,10 +65,12 @@ def usable(g):
 
 
 def run_harness(exe, args, env, timeout):
-    rc, out = vlib.sh([exe] + args, timeout=timeout, env=env)
+    # the library's own diagnostics on stderr are voluminous: not captured (a crash is re-run with stderr for the report)
+    rc, out = vlib.sh([exe] + args, timeout=timeout, env=env, drop_stderr=True)
     last = [l for l in out.splitlines() if l.startswith("{")]
     if rc != 0 or not last:
-        return {"crash": True, "rc": rc, "out": out[-3000:]}
+        rc2, out2 = vlib.sh([exe] + args, timeout=timeout, env=env)
+        return {"crash": True, "rc": rc, "out": out2[-3000:]}
     return json.loads(last[-1])
 
 
@@ -98,6 +100,47 @@ def run(tier, replay):
     variants = ["asan", "plain"]
     exes = {v: vlib.compile_harness("lifecycle_replay", ["harness/lifecycle_replay.cc"], v) for v in variants}
     results = []
+    cover_budget = 500 if thorough else 100
+    def ga_variant():
+        res_ga = []
+            # ---- 3. the same protocol with a gA dataset mounted (mode 21 of Mo100 initialises and shoots): second model, cover replay
+        gdump = os.path.join(os.path.dirname(dump), "lifecycle_ga")
+        rg = vlib.tlc("MCLifecycle", "MCLifecycle_ga.cfg", dump=gdump)
+        if rg.error:
+            raise vlib.InfraError(rg.error)
+        ck.tlc_stats(rg, "MCLifecycle(GaData=TRUE)")
+        if rg.violated:
+            ck.violation("model:ga:" + rg.violated, "Lifecycle.tla (GaData=TRUE) violates %s" % rg.violated, {"trace": rg.trace})
+        else:
+            gg = vlib.parse_dot(gdump + ".dot")
+            ggpath = gdump + ".graph"
+            galist, _ = flatten(gg, ggpath)
+            gadir = os.path.join(os.path.dirname(dump), "gadata")
+            rc_, out_ = vlib.sh(["python3", os.path.join(vlib.ROOT, "tools", "mk_ga_dataset.py"), gadir, "Mo100", "g0"], timeout=120)
+            if rc_ != 0:
+                raise vlib.InfraError("mk_ga_dataset failed: " + out_[-400:])
+            genv = vlib.harness_env("plain")
+            genv["BXDECAY0_DBD_GA_DATA_DIR"] = gadir
+            gamap = {k: i for i, k in enumerate(galist)}
+            gpre = [("SetCategory", "dbd"), ("SetIsotope", "Mo100"), ("SetLevel", "0"), ("SetMode", "21"), ("Initialize", "-"), ("Shoot", "-"), ("Reset", "-")]
+            jobs_ga = [("edge-cover(gA mounted) prefix=none", []), ("edge-cover(gA mounted) prefix=gA-cycle", gpre)]
+            with cf.ThreadPoolExecutor(max_workers=2) as ex:
+                futs = []
+                for tag, pre in jobs_ga:
+                    args = ["--graph", ggpath, "--cover", "--budget", str(cover_budget), "--maxlen", "3000"]
+                    if pre:
+                        args += ["--prefix", " ".join(str(gamap[l]) for l in pre)]
+                    futs.append((tag, ex.submit(run_harness, exes["plain"], args, genv, cover_budget + 120)))
+                for tag, f in futs:
+                    rr = f.result()
+                    rr["phase"] = tag
+                    res_ga.append(rr)
+                    if not rr.get("crash"):
+                        ck.add("state_action_pairs_executed", rr["pairs_covered"])
+                        ck.cov.setdefault("cover_complete", {})[tag] = rr["exhaustive"]
+        return res_ga
+    ga_pool = cf.ThreadPoolExecutor(max_workers=1)
+    ga_future = ga_pool.submit(ga_variant)
     # (a) edge cover: every (model state, action instance) pair is executed on a live object (online walk of the
     #     graph), once from the initial state and once more after each "poison prefix" - histories suspected of
     #     leaving hidden state behind (failed initialisations of each kind, a completed initialise/shoot/reset
@@ -151,6 +194,8 @@ def run(tier, replay):
     res["phase"] = "walks(asan)"
     results.append(res)
 
+    ga_future_results = ga_future.result()
+    results += ga_future_results
     exhaustive = True
     for res in results:
         if res.get("crash"):
@@ -176,5 +221,5 @@ def run(tier, replay):
     ck.sample("SetCategory(dbd) ; SetIsotope(Mo100) ; SetLevel(0) ; SetMode(21) ; Initialize [fails: no gA data] ; SetMode(1) ; Initialize ; Shoot ; Reset ; Shoot [refused]")
     ck.assumptions += ["TLC explores Lifecycle.tla completely for the constants in MCLifecycle.cfg",
                        "the getter projection (harness/lifecycle_replay.cc::project) is the abstract state",
-                       "gA dataset not mounted (GaData=FALSE): mode 21 initialisation must fail and leave the object usable"]
+                       "two variants: gA dataset not mounted (mode 21 initialisation must fail and leave the object usable) and a synthetic Mo100/g0 dataset mounted (mode 21 initialises and shoots)"]
     return ck.finish()
